@@ -3,6 +3,13 @@
 //!
 //! MAYV_PRIM = park | sleep | mutex | sem | cond | rw | chan (mpsc) | mpmc | join | flag | select |
 //!             read | accept | connect | mix (one of them, seeded)
+//!             readpark (not part of mix): the target does ONE blocking socket read and then blocks in a NON-io primitive
+//!             (MAYV_RP = park (default) | chan: coroutine::park / mpsc recv nobody serves); it is cancelled long after that
+//!             (40 ms of virtual time, longer than the long directed stall).  The cancel must not be swallowed by whatever the
+//!             finished read left behind in the coroutine's Cancel (a stale io registration: the subscriber of the read is
+//!             held up between `io_data.co.store(co)` and `cancel.set_io(io_data)` by a site-directed stall, MAYV_STALL_AT,
+//!             while the OTHER worker's epoll delivers the data and resumes the target).  MAYV_FDMOD=r: the target's socket
+//!             has fd % workers == r (its events are delivered by worker r) and the target is started on worker r + 1.
 //! MAYV_TIMED=1: the target uses the timed flavour of the call where one exists (park_timeout, wait_timeout,
 //!             recv_timeout ...): the cancel then also races with the timer of the call.
 //! MAYV_OTHERS = number of other parties (default 2: a coroutine and a thread), MAYV_ROUNDS their rounds.
@@ -162,7 +169,7 @@ fn main() {
     let sel_mutex = envs("MAYV_SELOTHERS", "read") == "mutex";
     let aim = envn("MAYV_AIM", 0) == 1;
     run(cfg, move |ctx| {
-        let prim: &'static str = if prim == "mix" { PRIMS[(ctx.rand() % PRIMS.len() as u64) as usize] } else { PRIMS.iter().copied().find(|p| *p == prim).expect("MAYV_PRIM") };
+        let prim: &'static str = if prim == "mix" { PRIMS[(ctx.rand() % PRIMS.len() as u64) as usize] } else { PRIMS.iter().copied().chain(["readpark"]).find(|p| *p == prim).expect("MAYV_PRIM") };
         let mx = Arc::new(may::sync::Mutex::new(0u32));
         let rw = Arc::new(may::sync::RwLock::new(0u32));
         let sem = Arc::new(may::sync::Semphore::new(0));
@@ -177,7 +184,28 @@ fn main() {
         let dt = Duration::from_millis(3);
 
         // sockets of the I/O variants
-        let (sa, sb) = may::os::unix::net::UnixStream::pair().expect("pair");
+        let (mut sa, mut sb) = may::os::unix::net::UnixStream::pair().expect("pair");
+        // readpark: choose the selector (worker) that delivers the events of the target's socket
+        let fdmod = std::env::var("MAYV_FDMOD").ok().and_then(|s| s.parse::<usize>().ok());
+        let workers = envn("MAYV_WORKERS", 2) as usize;
+        let mut spare = vec![];
+        if let Some(r) = fdmod {
+            for _ in 0..8 {
+                if sb.as_raw_fd() as usize % workers == r % workers {
+                    break;
+                }
+                if sa.as_raw_fd() as usize % workers == r % workers {
+                    std::mem::swap(&mut sa, &mut sb);
+                    break;
+                }
+                let (a, b) = may::os::unix::net::UnixStream::pair().expect("pair");
+                spare.push((std::mem::replace(&mut sa, a), std::mem::replace(&mut sb, b)));
+            }
+        }
+        let rp_chan = envs("MAYV_RP", "park") == "chan";
+        // readpark: 0 = not yet, 1 = the target is about to read, 2 = the read has returned
+        let rstage = Arc::new(AtomicUsize::new(0));
+        let (rstage_t, rstage_f) = (rstage.clone(), rstage.clone());
         let lst = may::net::TcpListener::bind("127.0.0.1:0").expect("bind");
         let laddr = lst.local_addr().unwrap();
         let lfd = { use std::os::fd::AsRawFd; lst.as_raw_fd() };
@@ -306,8 +334,12 @@ fn main() {
         let held = Arc::new(may::sync::Mutex::new(0u32));
         let heldw = Arc::new(may::sync::RwLock::new(0u32));
         let (held2, heldw2) = (held.clone(), heldw.clone());
+        let mut tb = may::coroutine::Builder::new().name("target".into());
+        if let (Some(r), "readpark") = (fdmod, prim) {
+            tb = tb.id((r + 1) % workers);
+        }
         let target = unsafe {
-            may::coroutine::Builder::new().name("target".into()).spawn(move || {
+            tb.spawn(move || {
                 let _a = Owned::new(1);
                 let _b = vec![Owned::new(2), Owned::new(3)];
                 // what the I/O variants own: dropped (closed) by the unwind
@@ -413,6 +445,27 @@ fn main() {
                                 Err(e) => mayv::ctx().fail(format!("target: read failed: {e}")),
                             }
                         }
+                        "readpark" => {
+                            if rstage_t.load(Ordering::SeqCst) == 0 {
+                                let mut buf = [0u8; 16];
+                                rstage_t.store(1, Ordering::SeqCst);
+                                match sb.read(&mut buf) {
+                                    Ok(n) => {
+                                        TGOT.fetch_add(n, Ordering::SeqCst);
+                                    }
+                                    Err(e) => mayv::ctx().fail(format!("target: read failed: {e}")),
+                                }
+                                rstage_t.store(2, Ordering::SeqCst);
+                            } else if rp_chan {
+                                // nobody sends, the Sender lives in the feeder's keep-alive list: only the cancel ends this
+                                if rx.recv().is_ok() {
+                                    TGOT.fetch_add(1, Ordering::SeqCst);
+                                }
+                            } else {
+                                // nobody unparks the target: only the cancel ends this
+                                may::coroutine::park();
+                            }
+                        }
                         "accept" => match lst.accept() {
                             Ok((s, _)) => {
                                 TGOT.fetch_add(1, Ordering::SeqCst);
@@ -448,6 +501,25 @@ fn main() {
             let c = mayv::ctx();
             let mut sa = sa;
             let mut conns = vec![];
+            let mut tx_keep = None;
+            if prim == "readpark" {
+                // one message, sent 1 ms after the target has gone into its read (it is subscribed, or its subscriber is
+                // held up, by then: virtual time only passes when nobody can run)
+                let mut n = 0u64;
+                while rstage_f.load(Ordering::SeqCst) == 0 && n < 1_000_000 {
+                    if n < 2000 {
+                        c.yield_now();
+                    } else {
+                        c.sleep_ns(20_000);
+                    }
+                    n += 1;
+                }
+                c.sleep_ns(1_000_000);
+                if sa.write(&[7u8; 4]).is_ok() {
+                    sent2.fetch_add(4, Ordering::SeqCst);
+                }
+                tx_keep = Some(tx.clone());
+            }
             for i in 0..6u32 {
                 c.sleep_ns([0u64, 300_000, 1_000_000][(c.rand() % 3) as usize]);
                 EVENTS.fetch_add(1, Ordering::SeqCst);
@@ -490,12 +562,31 @@ fn main() {
             let mut k = keep2.lock().unwrap();
             k.push(Box::new(sa));
             k.push(Box::new(conns));
+            k.push(Box::new(tx_keep));
         });
         let when = ctx.rand() % 4;
         while reached.load(Ordering::SeqCst) == 0 {
             ctx.yield_now();
         }
-        if aim {
+        if prim == "readpark" {
+            // cancel the target long after its read has returned and it has blocked again
+            let mut n = 0u64;
+            while rstage.load(Ordering::SeqCst) < 2 && n < 1_000_000 {
+                if n < 2000 {
+                    ctx.yield_now();
+                } else {
+                    ctx.sleep_ns(20_000);
+                }
+                n += 1;
+            }
+            if rstage.load(Ordering::SeqCst) < 2 {
+                ctx.fail("readpark: the target's read never returned although its 4 bytes were sent".into());
+            }
+            ctx.sleep_ns(40_000_000 + when * 700_000);
+            for _ in 0..(ctx.rand() % 40) {
+                ctx.point();
+            }
+        } else if aim {
             // fire right when the k-th event the target may be waiting for is about to happen
             let k = 1 + (ctx.rand() % 5) as usize;
             let mut guard = 0;
@@ -603,7 +694,7 @@ fn main() {
         // with the target, nothing can be read any more, so only the upper bound is checked)
         let (s, g) = (sent.load(Ordering::SeqCst), TGOT.load(Ordering::SeqCst));
         match prim {
-            "chan" | "select" | "read" | "accept" => {
+            "chan" | "select" | "read" | "readpark" | "accept" => {
                 if g > s {
                     ctx.fail(format!("the target received {g} but only {s} were sent"));
                 }
@@ -630,6 +721,7 @@ fn main() {
             ctx.fail("accept: the listener of the cancelled coroutine still accepts connections".into());
         }
         drop(fill);
+        drop(spare);
         drop(deadl);
         drop(keep);
     })
